@@ -1023,3 +1023,26 @@ Proof. vm_compute. split; reflexivity. Qed.
 Example ex_registration :
   List.map fst (registration_writes ex_cfg_nosasl) = [s_PASS; s_CAP; s_NICK; s_USER].
 Proof. vm_compute. reflexivity. Qed.
+
+Example ex_no_removal_acks : no_removal_acks ex_h.
+Proof.
+  intros i t Hi Ha Ht. unfold ex_h in Hi.
+  repeat (destruct Hi as [<-|Hi]); try (vm_compute in Ha; discriminate Ha); [|destruct Hi].
+  vm_compute in Ht. repeat (destruct Ht as [<-|Ht]); try reflexivity. destruct Ht.
+Qed.
+
+(* The finding ack-removal-ignored, and its repair, in one statement: after
+   LS / ACK :message-tags away-notify / ACK :-message-tags the capability is still reported
+   (and tags still go out) exactly when removals are NOT understood. *)
+Definition ex_removal_h : list cap_in :=
+  [ ex_in [bs "*"; s_LS; bs "message-tags away-notify"];
+    ex_in [bs "me"; s_ACK; bs "message-tags away-notify"];
+    ex_in [bs "me"; s_ACK; bs "-message-tags"] ].
+
+Lemma C08_ack_removal_finding_proof :
+  let en := st_enabled (cap_after ex_cfg (cap_init sts_init) ex_removal_h) in
+  has_capability true en (bs "message-tags") = negb ack_removal_aware /\
+  has_capability true en (bs "-message-tags") = negb ack_removal_aware /\
+  has_capability true en (bs "away-notify") = true /\
+  tag_section_present (send_loop_tags en (Some [(bs "k", bs "v")])) = negb ack_removal_aware.
+Proof. vm_compute. repeat split. Qed.
